@@ -46,6 +46,12 @@ func main() {
 		from, _ := strconv.ParseInt(a[5], 10, 64)
 		dl, _ := strconv.ParseInt(a[6], 10, 64)
 		os.Exit(fw.RunWorker(a[0], a[1], seed, shard, shards, from, dl, a[7], a[8]))
+	case "racepass":
+		if fw.RacePass == nil {
+			fmt.Println("racepass not available in this build")
+			os.Exit(2)
+		}
+		fw.RacePass()
 	case "solo":
 		if fw.Solo == nil || len(os.Args) < 3 {
 			fmt.Println("solo not available in this build")
